@@ -30,10 +30,12 @@ func pickRow(beta []byte, start int, want byte) int {
 }
 
 // bigVectorLen: the multiplication's vector length l is only required to be positive by both
-// NewSuite constructors; one case in 12 uses 4..16 components instead of 1..3.
-func bigVectorLen(t *rapid.T, l int) int {
+// NewSuite constructors; one case in 12 uses 4..16 components instead of 1..3. The base-OT variant
+// runs xi ~ 400 elliptic-curve OTs of l+2 blocks each (about 10 s per case in the quick tier), so
+// it is capped at l = 5 there (cap); the extension variant goes to 16.
+func bigVectorLen(t *rapid.T, l, cap int) int {
 	if rapid.IntRange(1, 12).Draw(t, "longVector") == 12 {
-		return rapid.SampledFrom([]int{4, 5, 8, 9, 16}).Draw(t, "lBig")
+		return min(cap, rapid.SampledFrom([]int{4, 5, 8, 9, 16}).Draw(t, "lBig"))
 	}
 	return l
 }
@@ -47,7 +49,7 @@ func TestRVOLESoftspoken(t *testing.T) {
 	vlib.Check(t, 48, func(t *rapid.T) {
 		c := genCurve(t)
 		h := genHash(t)
-		l := bigVectorLen(t, rapid.IntRange(1, 3).Draw(t, "l"))
+		l := bigVectorLen(t, rapid.IntRange(1, 3).Draw(t, "l"), 16)
 		a, ac := genInputs(t, c.order, l)
 		xi := xiSS(c.elemBits)
 		beta, bc := genChoices(t, "beta", xi)
@@ -73,7 +75,7 @@ func TestRVOLEBbot(t *testing.T) {
 	const test = "RVOLEBbot"
 	vlib.Check(t, 24, func(t *rapid.T) {
 		g := groupByName(rapid.SampledFrom([]string{"k256", "k256", "k256", "p256", "p256", "ed25519", "pallas"}).Draw(t, "group"))
-		l := bigVectorLen(t, rapid.IntRange(1, 3).Draw(t, "l"))
+		l := bigVectorLen(t, rapid.IntRange(1, 3).Draw(t, "l"), 5)
 		a, ac := genInputs(t, g.order, l)
 		xi := xiBbot(g.elemBits)
 		beta, bc := genChoices(t, "beta", xi)
